@@ -182,6 +182,18 @@ pub fn c06(o: &Opts) -> Outcome {
         };
         if bad { return Outcome { cases, witness: Some(vec![("container".into(), "fa, iterator driven through skip(3) / step_by(2) / nth(4)".into()), ("records".into(), recs.iter().map(|r| show(&r.1)).collect::<Vec<_>>().join("|")), ("why".into(), format!("ordinals or ids differ from the positions in the file: {:?}", got))]) }; }
     }
+    // identifiers with the shapes real data has (mate suffixes, pipes, colons, dots, version numbers): delivered unchanged in every container
+    {
+        let ids = ["read7/1", "read7/2", "chr1/1", "gi|12345|ref|NC_000913.3|", "M01234:55:000000000-A1B2C:1:1101:15589:1332", "contig.00012", "a/1/2", "x_y-z", "SRR1.1/1", "7"];
+        let recs: Vec<(String, Vec<u8>)> = ids.iter().enumerate().map(|(i, id)| (id.to_string(), (0..15 + i).map(|j| b"ACGT"[(i + j) % 4]).collect())).collect();
+        for (name, bytes) in [("ids.fa", fasta_bytes(&recs, 0, false)), ("ids.fq", fastq_bytes(&recs)), ("ids.fq.gz", gz(&fastq_bytes(&recs))), ("ids.fasta", fasta_bytes(&recs, 9, true))] {
+            let sc = Scratch::new("reader");
+            let path = sc.path(name);
+            std::fs::write(&path, bytes).unwrap();
+            cases += 1;
+            if let Some(w) = check_file(&path, &recs, &format!("{} with mate-suffixed / piped / dotted identifiers", name)) { return Outcome { cases, witness: Some(w) }; }
+        }
+    }
     // FASTQ records whose quality line starts with each of the characters that start other kinds of lines
     {
         let recs: Vec<(String, Vec<u8>)> = (0..14).map(|i| (format!("q{}", i), (0..20 + i).map(|j| b"ACGT"[(i + j) % 4]).collect())).collect();
